@@ -96,6 +96,7 @@ def gen(rng, tier):
         f['file'] = rng.randrange(nfiles)         # -1 would mean "in no file"
         f['everywhere'] = rng.random() < 0.3
     return {'cols': cols, 'files': files, 'request': request, 'fault': f, 'knobs': C.gen_knobs(rng),
+            'failed_call_before': rng.random() < 0.2,
             'prior_call': rng.random() < 0.2 and not any(r > 100000 for fl in files for r in fl['rows'])}
 
 
@@ -162,10 +163,15 @@ def run(case):
                 violation(out, 'raises:' + type(e).__name__, 'unpack_to_pipe:prior-call', repr(e)[:300])
                 return out
             bump(out['faults'], 'same-paths-piped-before-with-other-contents')
+        # a field may be missing from every file (an unknown name) or from one file only (a requested, existing
+        # column that one of the files lacks): both must be reported before any byte is written
+        partial = (fault['kind'] == 'missing-field' and not fault.get('everywhere', True) and len(case['request']) > 0)
+        victim = case['request'][min(fault['pos'], len(case['request']) - 1)] if partial else None
+        victim_file = (fault.get('file', 0) % len(case['files'])) if partial else None
         for fi, f in enumerate(case['files']):
             data = {}
             for ci, col in enumerate(case['cols']):
-                if fault['kind'] == 'missing-field' and col['name'] == '__missing__':
+                if partial and fi == victim_file and col['name'] == victim:
                     continue
                 data[col['name']] = _array(col, f['rows'][ci], f['seed'] + ci)
             p = os.path.join(root, f['name'])
@@ -175,13 +181,27 @@ def run(case):
             asdf.AsdfFile({'data': data, 'header': {'BoxSize': 1.0}}).write_to(p, **kw)
             paths.append(p)
             truth[p] = data
+        if case.get('failed_call_before') and not fault['kind']:
+            # history: an earlier call in this process failed (missing field, then missing file); the valid call that
+            # follows must be unaffected
+            for bad_args, bad_req in ((list(paths), list(case['request']) + ['no_such_field']),
+                                      (list(paths) + [os.path.join(root, 'does-not-exist.asdf')], list(case['request']))):
+                try:
+                    with C.environment(knobs):
+                        pipe_asdf.unpack_to_pipe(bad_args, bad_req, pipe=Sink(), verbose=False)
+                except Exception:
+                    pass
+            bump(out['faults'], 'failed-call-before')
         request = list(case['request'])
         args = list(paths)
         if fault['kind'] == 'missing-file':
             args.insert(min(fault['pos'], len(args)), os.path.join(root, 'does-not-exist.asdf'))
             bump(out['faults'], 'missing-file-at-%s' % ('start' if fault['pos'] == 0 else 'end' if fault['pos'] >= len(paths) else 'middle'))
         if fault['kind'] == 'missing-field':
-            request.insert(min(fault['pos'], len(request)), 'no_such_field')
+            if partial:
+                bump(out['faults'], 'field-missing-from-one-file-only')
+            else:
+                request.insert(min(fault['pos'], len(request)), 'no_such_field')
             bump(out['faults'], 'missing-field-at-%s' % ('start' if fault['pos'] == 0 else 'end' if fault['pos'] >= len(case['request']) else 'middle'))
         sink = Sink()
         err = None
